@@ -203,6 +203,26 @@ pub fn run_c07(toks: &[&str]) -> Lines {
         Ok(d) if d == all => {},
         _ => why.push("get_all_bytes".into()),
     }
+    // the seekable readers over a source that answers every read with a short, irregular piece
+    for pat in [0usize, 1, 2] {
+        let mut sr = crate::shard::ShortRead { data: &x.bytes, pos: 0, k: pat };
+        match CasObject::deserialize(&mut sr) {
+            Ok(c2) if c2 == x.cas => {},
+            _ => why.push(format!("deserialize-short-reads-pattern{}", pat)),
+        }
+        match cas.get_all_bytes(&mut sr) {
+            Ok(d) if d == all => {},
+            _ => why.push(format!("get_all_bytes-short-reads-pattern{}", pat)),
+        }
+        for (a, b) in [(0u32, 1u32), (0, n as u32), (n as u32 / 2, n as u32), (n as u32 - 1, n as u32)] {
+            if a < b {
+                match cas.get_bytes_by_chunk_range(&mut sr, a, b) {
+                    Ok(d) if d == x.chunks[a as usize..b as usize].concat() => {},
+                    _ => why.push(format!("range{}-{}-short-reads-pattern{}", a, b, pat)),
+                }
+            }
+        }
+    }
     let ranges: Vec<(u32, u32)> = if toks.len() > 2 && !toks[2].is_empty() {
         toks[2].split(',').map(|r| { let (a, b) = r.split_once('-').unwrap(); (a.parse().unwrap(), b.parse().unwrap()) }).collect()
     } else {
@@ -249,6 +269,24 @@ pub fn run_c07(toks: &[&str]) -> Lines {
         match r {
             Some((d, i)) if d == all && i == idx => {},
             _ => why.push(format!("decoder-{}", name)),
+        }
+    }
+    // the same three decoders over sources that deliver the bytes in short, irregular pieces
+    for pat in [0usize, 1, 2] {
+        use crate::shard::ShortRead;
+        let s2 = cas_object::deserialize_chunks(&mut ShortRead { data: region, pos: 0, k: pat });
+        let a2 = rt.block_on(cas_object::deserialize_async::deserialize_chunks_from_async_read(&mut ShortRead { data: region, pos: 0, k: pat }));
+        let pieces: Vec<Result<bytes::Bytes, std::io::Error>> = ShortRead::pieces(region, pat).into_iter().map(|c| Ok(bytes::Bytes::from(c))).collect();
+        let t2 = rt.block_on(cas_object::deserialize_async::deserialize_chunks_from_stream(futures::stream::iter(pieces)));
+        for (name, r) in [("sync", s2.ok()), ("async", a2.ok()), ("stream", t2.ok())] {
+            match r {
+                Some((d, i)) if d == all && i == idx => {},
+                _ => why.push(format!("decoder-{}-short-reads-pattern{}", name, pat)),
+            }
+        }
+        let sv = rt.block_on(cas_object::validate_cas_object_from_async_read(&mut ShortRead { data: &x.bytes, pos: 0, k: pat }, &x.hash));
+        if !matches!(sv, Ok(Some(_))) {
+            why.push(format!("stream-validator-rejects-valid-short-reads-pattern{}", pat));
         }
     }
     // both validators accept it for its own hash and reject another
@@ -438,6 +476,20 @@ pub fn run_c08(toks: &[&str]) -> Lines {
         Some(Err(cas_object::error::CasObjectError::FormatError(_))) => "reject",
         Some(Err(_)) => "error",
     };
+    // the streaming validator must reach the same verdict when the bytes arrive in short, irregular pieces
+    for pat in [0usize, 1] {
+        let bb = b.clone();
+        let (r5, a5) = guarded(std::panic::AssertUnwindSafe(|| {
+            rt.block_on(cas_object::validate_cas_object_from_async_read(&mut crate::shard::ShortRead { data: &bb, pos: 0, k: pat }, &h))
+        }));
+        let c5 = r5.as_ref().map(cat).unwrap_or("PANIC");
+        if c5 != c2 {
+            why.push(format!("stream-validator-verdict-depends-on-read-sizes:{}-vs-{}", c2, c5));
+        }
+        if a5 > limit {
+            why.push(format!("stream-short-reads-allocated-{}-bytes-for-{}-byte-input", a5, b.len()));
+        }
+    }
     out.push(("obs", format!("seek={} stream={} bnd={} footer={}", c1, c2, c3, c4)));
     for (n, c) in [("seekable", c1), ("stream", c2), ("boundaries-only", c3), ("footer", c4)] {
         if c == "PANIC" {
